@@ -44,6 +44,7 @@ type Task struct {
 	// set by the task before it yields
 	progress    bool
 	forceSwitch bool
+	ioYield     bool
 	req         func() // pending call for the simulator goroutine
 	prio        int
 	run         int // consecutive picks
@@ -59,6 +60,30 @@ type Event struct {
 	fn       func()
 	canceled bool
 	idx      int
+	timer    int // incarnation+1 of the task that armed it as a timer; 0 = not a timer
+}
+
+// TimersDue returns, in ascending order, the distinct instants in (now, now+max]
+// at which a pending timer (Timer, Ticker, AfterFunc, context deadline) armed by
+// incarnation inc falls due. Scenario code uses it to aim a message at the
+// instant a timer of the agent fires, so that the two handlers run concurrently.
+func (s *Sim) TimersDue(inc int, max int64) []int64 {
+	var out []int64
+	for _, e := range s.events.a {
+		if e.canceled || e.timer != inc+1 || e.at <= s.now || e.at > s.now+max {
+			continue
+		}
+		out = append(out, e.at)
+	}
+	sort.Slice(out, func(i, j int) bool { return out[i] < out[j] })
+	k := 0
+	for i, v := range out {
+		if i == 0 || v != out[k-1] {
+			out[k] = v
+			k++
+		}
+	}
+	return out[:k]
 }
 
 func (e *Event) Cancel() {
@@ -129,6 +154,14 @@ type Sim struct {
 	OnPanic func(p PanicRec)
 
 	MaxSteps   uint64
+	// StepCost: virtual nanoseconds every scheduling step of a task costs (0 =
+	// computation is instantaneous). With a cost, code paths have a width in
+	// virtual time and events can land inside them ("slow agent" schedules).
+	StepCost   int64
+	// IODen: switch away from a task at an IOPoint with probability 1/IODen (0 = IOPoints off)
+	IODen      int
+	IOSwitches int
+	ioLast     *Task
 	Exhausted  bool
 	logH       uint64
 	LogLines   []string
@@ -195,6 +228,12 @@ func (s *Sim) At(at int64, fn func()) *Event {
 	s.seq++
 	e := &Event{at: at, seq: s.seq, fn: fn}
 	s.events.push(e)
+	return e
+}
+
+func (s *Sim) afterTimer(inc int, d time.Duration, fn func()) *Event {
+	e := s.After(d, fn)
+	e.timer = inc + 1
 	return e
 }
 
@@ -455,6 +494,28 @@ func P(site int) {
 	}
 }
 
+// IOPoint is a scheduling point placed by the simulated environment just before
+// a task performs an externally visible I/O operation (socket write). With
+// IODen>0 the scheduler switches to another candidate there with probability
+// 1/IODen whatever the strategy: the classic windows (state prepared, not yet
+// written) sit right before I/O.
+//
+//go:norace
+func IOPoint() {
+	s := S
+	if s == nil || s.IODen == 0 {
+		return
+	}
+	t := s.cur
+	if t == nil {
+		return
+	}
+	t.ioYield = true
+	t.state = stRunnable
+	t.progress = true
+	t.yield()
+}
+
 // syncPoint is a scheduling decision point before a synchronisation operation.
 //
 //go:norace
@@ -612,6 +673,14 @@ func (s *Sim) pick(c []*Task) *Task {
 			li = i
 		}
 	}
+	if li >= 0 && c[li] == s.ioLast && s.Strat != StratPCT {
+		if !s.Ch.Bool(1, s.IODen, "io-switch") {
+			return c[li]
+		}
+		s.IOSwitches++
+		others := append(append([]*Task{}, c[:li]...), c[li+1:]...)
+		return others[s.Ch.Choose(len(others), "io-switch-to")]
+	}
 	if li >= 0 && c[li] == s.forced {
 		// statement-level pre-emption: must run somebody else
 		others := append(append([]*Task{}, c[:li]...), c[li+1:]...)
@@ -694,7 +763,13 @@ func (s *Sim) step() bool {
 	t.run++
 	s.last = t
 	s.forced = nil
+	s.ioLast = nil
 	s.runTask(t)
+	if t.ioYield {
+		t.ioYield = false
+		s.ioLast = t
+		s.instantSteps--
+	}
 	if t.state == stBlocked {
 		t.instPicks = 0
 	} else if t.progress {
@@ -729,6 +804,19 @@ func (s *Sim) RunUntil(pred func() bool, deadline int64) bool {
 			return false
 		}
 		if s.step() {
+			if s.StepCost > 0 {
+				s.now += s.StepCost
+				// events that fall due while tasks are running fire now
+				for {
+					ev := s.events.peek()
+					if ev == nil || ev.at > s.now || ev.at > deadline {
+						break
+					}
+					s.events.pop()
+					ev.fn()
+					s.MarkDirty()
+				}
+			}
 			if s.instantSteps < spinLimit {
 				continue
 			}
@@ -754,6 +842,16 @@ func (s *Sim) RunUntil(pred func() bool, deadline int64) bool {
 			s.instantSteps = 0
 		}
 		ev.fn()
+		// everything due at the same instant fires before any task runs, so
+		// that the tasks these events wake are scheduled against each other
+		for {
+			nx := s.events.peek()
+			if nx == nil || nx.at > s.now || nx.at > deadline {
+				break
+			}
+			s.events.pop()
+			nx.fn()
+		}
 		s.MarkDirty()
 	}
 }
